@@ -193,6 +193,8 @@ pub struct Evaluator<'a> {
     pub n: usize,
     /// Kleene iterations performed (reach probe)
     pub iterations: u64,
+    /// most rounds any single fixed-point evaluation needed (reach probe)
+    pub max_rounds: u64,
 }
 
 impl<'a> Evaluator<'a> {
@@ -204,6 +206,7 @@ impl<'a> Evaluator<'a> {
             index: names.iter().enumerate().map(|(i, n)| (n.as_str(), i)).collect(),
             n: names.len(),
             iterations: 0,
+            max_rounds: 0,
         })
     }
 
@@ -335,6 +338,8 @@ impl<'a> Evaluator<'a> {
                 let mut cur = TT::konst(n, *gfp);
                 let limit = (1usize << n.min(20)) + 2;
                 let mut iters = 0usize;
+                // an iterate that returns to an earlier, different one can never become stable
+                let mut seen: std::collections::HashSet<TT> = std::collections::HashSet::new();
                 loop {
                     self.iterations += 1;
                     scope.push((name.clone(), cur.clone()));
@@ -342,7 +347,11 @@ impl<'a> Evaluator<'a> {
                     scope.pop();
                     let next = next?;
                     if next == cur {
+                        self.max_rounds = self.max_rounds.max(iters as u64 + 1);
                         break cur;
+                    }
+                    if !seen.insert(cur) || seen.contains(&next) {
+                        return Err(EvalError::NonConvergent);
                     }
                     cur = next;
                     iters += 1;
@@ -694,13 +703,20 @@ pub fn gen_cfg(rng: &mut Prng, max_names: usize, max_depth: usize) -> GenCfg {
     for w in &mut weights[2..] {
         *w = *rng.pick(&[0u32, 1, 1, 3]) * *w;
     }
+    let mut max_fix_nesting = rng.range(0, 2);
+    if rng.chance(1, 8) {
+        // binder-heavy swarm mode: quantifier and fixed-point idioms dominate the formula
+        weights[5] = 9;
+        weights[8] = 8;
+        max_fix_nesting = 2;
+    }
     GenCfg {
         pool,
         binder_pool,
         max_depth: rng.range(1, max_depth.max(1)),
         max_list: rng.range(0, 4),
         weights,
-        max_fix_nesting: rng.range(0, 2),
+        max_fix_nesting,
     }
 }
 
@@ -714,6 +730,17 @@ pub fn colliding_name_pair() -> (String, String) {
             .expect("a colliding pair of 9-character names exists for this prefix")
     })
     .clone()
+}
+
+/// Plain variables usable by the saturation idiom: pool names that are no fixed-point name in scope.
+fn saturation_candidates(cfg: &GenCfg, fixes: &[(String, Pol)]) -> Vec<String> {
+    let mut v: Vec<String> = Vec::new();
+    for n in &cfg.pool {
+        if !fixes.iter().any(|(m, _)| m == n) && !v.contains(n) {
+            v.push(n.clone());
+        }
+    }
+    v
 }
 
 pub fn gen_formula(rng: &mut Prng, cfg: &GenCfg) -> F {
@@ -823,7 +850,7 @@ fn gen_rec(
             let e = gen_rec(rng, cfg, d, fixes, fix_nesting);
             F::Ite(Box::new(c), Box::new(t), Box::new(e))
         }
-        5 if rng.chance(1, 6) && !cfg.pool.is_empty() => {
+        5 if rng.chance(1, 4) && !cfg.pool.is_empty() => {
             // the definitional-quantifier idiom: exists t # (t <=> DEF) & REST (and its dual),
             // with t a binder name that does not occur in DEF
             let t = rng.pick(&cfg.binder_pool).clone();
@@ -928,6 +955,59 @@ fn gen_rec(
                 .collect();
             F::CountL(op, l, r)
         }
+        _ if rng.chance(1, 5) && saturation_candidates(cfg, fixes).len() >= 2 => {
+            // the saturation idiom (reachability style): a fixed point whose iterate changes
+            // strictly in many consecutive rounds, usually under a quantifier that binds the
+            // variables the iterates depend on:
+            //   lfp X # (v1 & .. & vm) | (exists v1 # X) | (exists v2 # forall v1 # X) | ..
+            // and its dual for gfp; the quantifier lists are varied, X occurs only positively
+            let mut vs = saturation_candidates(cfg, fixes);
+            rng.shuffle(&mut vs);
+            vs.truncate(rng.range(2, vs.len().min(5)));
+            let x = {
+                let c: Vec<&String> = cfg.binder_pool.iter().filter(|n| !vs.contains(n) && !fixes.iter().any(|(m, _)| m == *n)).collect();
+                match c.first() {
+                    Some(n) => (*n).clone(),
+                    None => return F::Const(rng.coin()),
+                }
+            };
+            let gfp = rng.coin();
+            let (join, meet) = if gfp { (BinOp::And, BinOp::Or) } else { (BinOp::Or, BinOp::And) };
+            let fold = |op: BinOp, mut items: Vec<F>| -> F {
+                let mut acc = items.remove(0);
+                for it in items {
+                    acc = F::Bin(op, Box::new(acc), Box::new(it));
+                }
+                acc
+            };
+            let seed = fold(meet, vs.iter().map(|v| F::Var(v.clone())).collect());
+            let mut terms = vec![seed];
+            for (i, v) in vs.iter().enumerate() {
+                let mut inner = F::Var(x.clone());
+                let others: Vec<String> = if rng.chance(3, 4) {
+                    vs[..i].to_vec()
+                } else {
+                    vs.iter().filter(|o| *o != v && rng.coin()).cloned().collect()
+                };
+                if !others.is_empty() {
+                    inner = F::Quant(!gfp, others, Box::new(inner));
+                }
+                terms.push(F::Quant(gfp, vec![v.clone()], Box::new(inner)));
+            }
+            let fix = F::Fix(gfp, x, Box::new(fold(join, terms)));
+            match rng.below(4) {
+                0 => fix,
+                1 => F::Quant(rng.coin(), vs.clone(), Box::new(fix)),
+                2 => {
+                    let k = rng.range(1, vs.len());
+                    F::Quant(rng.coin(), vs[..k].to_vec(), Box::new(fix))
+                }
+                _ => {
+                    let other = with_flip(fixes, None, |fx| gen_rec(rng, cfg, d.min(2), fx, cfg.max_fix_nesting));
+                    F::Quant(rng.coin(), vs.clone(), Box::new(F::Bin(*rng.pick(&[BinOp::And, BinOp::Or, BinOp::Iff]), Box::new(fix), Box::new(other))))
+                }
+            }
+        }
         _ if fix_nesting + 2 <= cfg.max_fix_nesting.max(2) && cfg.binder_pool.len() >= 2 && !cfg.pool.is_empty() && rng.chance(1, 3) => {
             // classic nested fixed-point shapes (alternation included):
             //   FP1 X # FP2 Y # ((Q a # X) op1 P) op2 Y
@@ -942,15 +1022,20 @@ fn gen_rec(
             let p = gen_rec(rng, cfg, d.min(2), fixes, fix_nesting + 2);
             fixes.pop();
             fixes.pop();
+            // half of the time the textbook alternation (nu/mu with forall-and-or, mu/nu with
+            // exists-or-and), otherwise every combination
+            let (g1, g2, q, op1, op2) = match rng.below(4) {
+                0 => (true, false, true, BinOp::And, BinOp::Or),
+                1 => (false, true, false, BinOp::Or, BinOp::And),
+                _ => (rng.coin(), rng.coin(), rng.coin(), *rng.pick(&[BinOp::And, BinOp::Or]), *rng.pick(&[BinOp::And, BinOp::Or])),
+            };
             let qx = if a == x || a == y {
                 F::Var(x.clone())
             } else {
-                F::Quant(rng.coin(), vec![a], Box::new(F::Var(x.clone())))
+                F::Quant(q, vec![a], Box::new(F::Var(x.clone())))
             };
-            let op1 = *rng.pick(&[BinOp::And, BinOp::Or]);
-            let op2 = *rng.pick(&[BinOp::And, BinOp::Or]);
             let inner = F::Bin(op2, Box::new(F::Bin(op1, Box::new(qx), Box::new(p))), Box::new(F::Var(y.clone())));
-            F::Fix(rng.coin(), x, Box::new(F::Fix(rng.coin(), y, Box::new(inner))))
+            F::Fix(g1, x, Box::new(F::Fix(g2, y, Box::new(inner))))
         }
         _ => {
             let name = if rng.chance(1, 3) {
